@@ -40,7 +40,7 @@ Definition pc_code (w0 : world) (t : nat) : Z :=
       | FC _ _ s => 300 + match s with C1 => 1 | C2 => 2 | C3 _ => 3 | C4 _ => 4 | C5 _ _ => 5 | CR _ _ => 0 | C6 _ _ _ => 6 | C7 => 7 | C8 => 8 end
       | FF _ s _ => 400 + match s with F1 => 1 | Fw1 => 14 | Fw2 => 15 | F2 => 2 | F3 => 3 | F4 => 4 | F5 => 5 | F6 _ _ => 6 | F7 _ _ => 7
                                       | FR _ _ => 0 | F8 _ _ _ => 8 | F9 => 9 | F10 _ => 10 | F11 => 11 | F12 => 12 | F13 => 13 end
-      | ANew _ _ s => 500 + match s with W1 => 1 | WD _ => 0 | W2 _ _ => 2 | W3 _ _ => 3 | W4 _ _ => 4 end
+      | ANew _ _ s => 500 + match s with W1 => 1 | WD _ => 0 | W2 _ _ _ => 2 | W3 _ _ _ => 3 | W4 _ _ => 4 end
       | AWait _ _ s => 600 + match s with WReady => 0 | E1 => 1 | E2 => 2 | E3 => 3 | E4 => 4 | E5 => 5 | WLoop => 0 | S1 _ => 6 | WDeq => 0
                                           | Q1 => 7 | Q2 => 8 | Q3 => 9 | Q4 _ => 10 end
       | AExp _ => 700
